@@ -210,6 +210,25 @@ def _protocol(ctx, g, x, root, fl, view):
         ctx.add('W8', 'T-WHO', root, not other_ref, 'pin count only changed by +1/-1', flavour=fl, sub=rsub)
     if view:
         ctx.add('W8', 'T-WHO', root, not incs and not decs and not other_ref, 'the view path takes no pins', flavour=fl, sub=rsub)
+    # ---- P5d: the reader mode is decided before the position of the attempt is observed
+    sets_single = [n for n in x.ext_calls(r'Cell(::<.*>)?::(set|replace)$')
+                   if any('Reader.state' in p_ for p_ in g.locpaths(g.call_args(n)[0]))
+                   and g.strip(g.call_args(n)[1])[0] == 'agg' and g.strip(g.call_args(n)[1])[2].endswith('ReaderState::Single')]
+    ends = {nid for (nid, si, rv) in x.aggs(r'TryRecvError::(Empty|Disconnected)$')} | {c.nid for c in commits}
+    late_mode = []
+    attempt_pos = set()
+    for c in commits:
+        for arg in g.call_args(c.nid)[1:3]:
+            attempt_pos |= {s_.nid for s_ in x.loads_in(arg) if s_.op == 'load' and s_.nid in POSOBS}
+    for S_ in sets_single:
+        for p_ in sorted(attempt_pos):
+            if x.reaches(p_, S_, blocked=ends):
+                late_mode.append((x.describe(S_), x.describe(p_)))
+    cons_loads = [a for a in x.atoms_on('ReaderMeta.num_consumers') if a.op == 'load']
+    ctx.add('P5d', 'T-DOM', root, not late_mode,
+            'the switch to Single (plain-store) mode is decided before the position of the attempt is observed' if not late_mode else
+            'the reader is switched to Single mode (%s) after the position of the attempt was already observed (%s): a sibling that advanced the stream and left in between is overwritten by a plain store of old position + 1'
+            % late_mode[0], flavour=fl, sub=rsub + '|mode-before-position')
     # ---- commits
     Rn = {n for (n, k) in consuming}
     for c in commits:
